@@ -1,6 +1,7 @@
 package main
 
 import (
+	"time"
 	"math"
 	"regexp"
 	"strconv"
@@ -49,6 +50,85 @@ func hostBin(name string, a, b *variants.Variant, unsafe bool) (r *variants.Vari
 		default:
 			return nil, false
 		}
+	}
+	// time spans and date-times of the same type: the host's Duration arithmetic / time comparison (any magnitude, any zone)
+	if a.Type() == variants.TimeSpan && b.Type() == variants.TimeSpan {
+		x, y := a.AsTimeSpan(), b.AsTimeSpan()
+		switch name {
+		case "Add":
+			return variants.VariantFromTimeSpan(x + y), true
+		case "Sub":
+			return variants.VariantFromTimeSpan(x - y), true
+		case "Equal":
+			return variants.VariantFromBoolean(x == y), true
+		case "NotEqual":
+			return variants.VariantFromBoolean(x != y), true
+		case "More":
+			return variants.VariantFromBoolean(x > y), true
+		case "Less":
+			return variants.VariantFromBoolean(x < y), true
+		case "MoreEqual":
+			return variants.VariantFromBoolean(x >= y), true
+		case "LessEqual":
+			return variants.VariantFromBoolean(x <= y), true
+		}
+		return nil, false
+	}
+	if a.Type() == variants.DateTime && b.Type() == variants.DateTime {
+		x, y := a.AsDateTime(), b.AsDateTime()
+		switch name {
+		case "Sub":
+			return variants.VariantFromTimeSpan(x.Sub(y)), true
+		case "Equal":
+			return variants.VariantFromBoolean(x.Equal(y)), true
+		case "NotEqual":
+			return variants.VariantFromBoolean(!x.Equal(y)), true
+		case "More":
+			return variants.VariantFromBoolean(x.After(y)), true
+		case "Less":
+			return variants.VariantFromBoolean(x.Before(y)), true
+		case "MoreEqual":
+			return variants.VariantFromBoolean(!x.Before(y)), true
+		case "LessEqual":
+			return variants.VariantFromBoolean(!x.After(y)), true
+		}
+		return nil, false
+	}
+	if a.Type() == variants.Boolean && b.Type() == variants.Boolean {
+		x, y := a.AsBoolean(), b.AsBoolean()
+		switch name {
+		case "And":
+			return variants.VariantFromBoolean(x && y), true
+		case "Or":
+			return variants.VariantFromBoolean(x || y), true
+		case "Xor":
+			return variants.VariantFromBoolean(x != y), true
+		case "Equal":
+			return variants.VariantFromBoolean(x == y), true
+		case "NotEqual":
+			return variants.VariantFromBoolean(x != y), true
+		}
+		return nil, false
+	}
+	if a.Type() == variants.String && b.Type() == variants.String {
+		x, y := a.AsString(), b.AsString()
+		switch name {
+		case "Add":
+			return variants.VariantFromString(x + y), true
+		case "Equal":
+			return variants.VariantFromBoolean(x == y), true
+		case "NotEqual":
+			return variants.VariantFromBoolean(x != y), true
+		case "More":
+			return variants.VariantFromBoolean(x > y), true
+		case "Less":
+			return variants.VariantFromBoolean(x < y), true
+		case "MoreEqual":
+			return variants.VariantFromBoolean(x >= y), true
+		case "LessEqual":
+			return variants.VariantFromBoolean(x <= y), true
+		}
+		return nil, false
 	}
 	if !isNum(a) || !isNum(b) {
 		return nil, false
@@ -226,6 +306,11 @@ func widePool() []*variants.Variant {
 		F(16777216), F(16777218), F(1e10), F(3.4e38), F(1e-45), F(float32(math.Copysign(0, -1))), F(0.3), F(-7.75), F(2147483648), F(0.5),
 		D(9007199254740992), D(9007199254740994), D(1e-320), D(math.Copysign(0, -1)), D(9.223372036854775807e18), D(1e19), D(0.1 + 0.2), D(1.0 / 3), D(123456789.125),
 		D(16777217), D(-2147483649), D(4294967296.5), D(0.5), D(-1e300),
+		variants.VariantFromTimeSpan(time.Duration(math.MaxInt64)), variants.VariantFromTimeSpan(time.Duration(math.MinInt64)), variants.VariantFromTimeSpan(time.Nanosecond), variants.VariantFromTimeSpan(-36 * time.Hour),
+		variants.VariantFromTimeSpan(1<<53 + 1), variants.VariantFromDateTime(time.Unix(1636266600, 0).In(zone("America/New_York"))), variants.VariantFromDateTime(time.Unix(1636266600, 0).UTC()),
+		variants.VariantFromDateTime(time.Unix(1636263000, 999999999).In(zone("Europe/Berlin"))), variants.VariantFromDateTime(time.Date(1, 1, 1, 0, 0, 0, 0, time.UTC)),
+		variants.VariantFromDateTime(time.Date(9999, 12, 31, 23, 59, 59, 0, time.UTC)), variants.VariantFromDateTime(time.Unix(-1, 500)),
+		variants.VariantFromBoolean(true), variants.VariantFromBoolean(false), S(""), S("a"), S("A"), S("a\x00"), S("ab"), S("\u00e9"), S("e\u0301"), S("z"), S("\U0001f600"),
 		S("0.5" + strings.Repeat("0", 62)), S(strings.Repeat("0", 80) + "42"), S("3.1415926535897932384626433832795028841971693993751058209749445923078164062"), S("-2.5"), S("17"), S("0.1"),
 		S("9223372036854775807"), S("-9223372036854775808"), S("16777217"), S("123456789.125"), S(strings.Repeat("9", 30)), S("0." + strings.Repeat("0", 70) + "1"),
 	}
